@@ -1,20 +1,11 @@
 (* Month.v — Calendar::month_shape of every calendar a user can hold, against the set of days that
    exist in the month (Spec.old_mdays / new_mfirst / new_mdays / natural_len). *)
-From JV Require Import Sem Gen Spec.
+From JV Require Import Sem Gen Spec SpecX.
 From JV.Proofs Require Import SpecFacts GapFacts Cal Cmp Inner Year MonthGeom Shape.
 Open Scope Z_scope.
 Ltac Zify.zify_post_hook ::= Z.to_euclidean_division_equations.
 
 (* ------------------------------------------------------------------ the shape the specification prescribes *)
-Definition shape_from (o f n nl : Z) : inner_MonthShape :=
-  if n =? 0 then (if o =? nl then inner_MonthShape_Normal nl else inner_MonthShape_Tailless o nl)
-  else if o =? 0 then (if f =? 1 then inner_MonthShape_Normal nl else inner_MonthShape_Headless f nl)
-  else inner_MonthShape_Gapped (o + 1) (f - 1) nl.
-Definition shape_of (c : cal) (y m : Z) : inner_MonthShape :=
-  shape_from (old_mdays c y m) (new_mfirst c y m) (new_mdays c y m) (natural_len c y m).
-Definition month_shape_spec (c : cal) (y : Z) (m : Month) : option MonthShape :=
-  if month_count c y (Month_discr m) =? 0 then None
-  else Some (mkMonthShape (cal_of c) y m (shape_of c y (Month_discr m))).
 
 (* ------------------------------------------------------------------ structure of the translated function *)
 Definition ms_tail (self : Calendar) (year : Z) (month : Month) (length : Z) : M (option MonthShape) :=
